@@ -133,10 +133,8 @@ theorem C20_reference_request_auth (pf : Profile) (user pass : Text) (hpf : pf.c
 
 /-- **The reference accepts only sentences of the grammar** (no-authentication profiles): whatever
 it accepts is a greeting offering the server's method followed by the encoding of exactly the
-request it is read as; `used` is the length of the two messages.
-(For the user/password profile only the direction `C20_reference_request_auth` is proved —
-`_partial`: the inverse statement for `decodeAuth` is not stated.) -/
-theorem C20_reference_complete_partial (pf : Profile) (hpf : pf.creds = none) (bs : Bytes) (cmd : Nat)
+request it is read as; `used` is the length of the two messages. -/
+theorem C20_reference_complete (pf : Profile) (hpf : pf.creds = none) (bs : Bytes) (cmd : Nat)
     (a : Addr) (port used : Nat) (pre : Bytes) (h : decodeNeg pf bs = .accept cmd a port used pre) :
     ∃ (methods : Bytes) (rsv : Byte) (rest : Bytes),
       bs = encGreeting methods ++ ((⟨cmd, rsv, a, port⟩ : Request).enc ++ rest) ∧
@@ -145,6 +143,23 @@ theorem C20_reference_complete_partial (pf : Profile) (hpf : pf.creds = none) (b
       used = (encGreeting methods).length + (⟨cmd, rsv, a, port⟩ : Request).enc.length ∧
       pre = [5, u8 pf.method] :=
   decodeNeg_accept pf hpf bs cmd a port used pre h
+
+/-- **Same for the user/password profile (RFC 1929)**: whatever the reference accepts is a greeting
+offering the method, the RFC 1929 message carrying exactly the configured user name and password
+(each at most 255 octets), and the encoding of exactly the request it is read as; the replies owed
+are the method selection and the success status `01 00`. -/
+theorem C20_reference_complete_auth (pf : Profile) (user pass : Text) (hpf : pf.creds = some (user, pass))
+    (bs : Bytes) (cmd : Nat) (a : Addr) (port used : Nat) (pre : Bytes)
+    (h : decodeNeg pf bs = .accept cmd a port used pre) :
+    ∃ (methods : Bytes) (rsv : Byte) (rest : Bytes),
+      bs = encGreeting methods ++ (encAuth user pass ++ ((⟨cmd, rsv, a, port⟩ : Request).enc ++ rest)) ∧
+      0 < methods.length ∧ methods.length ≤ 255 ∧ methods.contains (u8 pf.method) = true ∧
+      user.length ≤ 255 ∧ pass.length ≤ 255 ∧
+      (⟨cmd, rsv, a, port⟩ : Request).WF = true ∧ pf.cmds.contains cmd = true ∧
+      used = (encGreeting methods).length + (encAuth user pass).length +
+        (⟨cmd, rsv, a, port⟩ : Request).enc.length ∧
+      pre = [5, u8 pf.method, 1, 0] :=
+  decodeNeg_accept_auth pf user pass hpf bs cmd a port used pre h
 
 /-- **Round trip, listener** (`parseReq (encodeReq r) = r` in any chunking, consuming exactly the
 message): every method list containing "no authentication", every command CONNECT / UDP ASSOCIATE,
@@ -298,6 +313,55 @@ example : parseUDPHeader toyIP [0, 0, 0, 3, 1, 97, 0, 53, 255] = .ok ⟨[97], 53
 
 example : holdsUdp toyIP [0, 0, 0, 3, 1, 97, 0, 53, 255] ⟨.fail .tooShort, none⟩ = false := by decide
 
+/-! ### What the listener does with the parsed request (`handleConnection`) -/
+
+/-- `handleConnection` hands the handshake result on, in this order; the DoT port is the literal 853;
+`SendSuccessWithBind` takes `bindAddr.IP.To4()` and writes the port big-endian. -/
+theorem C20_skel_connection :
+    Skel.Listener_handleConnection =
+      ["l.Handshake", "conn.Close", "l.handleConnect", "l.handleUDPAssociate", "l.SendError", "conn.Close"] ∧
+    Skel.Listener_handleConnect =
+      ["l.SendError", "conn.Close", "l.SendError", "conn.Close", "l.SendSuccess",
+       "tunnelCreator.CreateSOCKS5Tunnel", "l.SendError", "conn.Close"] ∧
+    Skel.Listener_handleConnect_lits = [853] ∧
+    Skel.Listener_handleUDPAssociate =
+      ["l.SendError", "conn.Close", "udpRelayCreator.CreateUDPRelay", "l.SendError", "conn.Close",
+       "l.SendSuccessWithBind"] ∧
+    Skel.Listener_SendSuccess = ["conn.Write"] ∧ Skel.Listener_SendSuccess_lits = [0, 0, 0, 0, 0, 0, 0] ∧
+    Skel.Listener_SendSuccessWithBind = ["bindAddr.IP.To4", "conn.Write"] ∧
+    Skel.Listener_SendSuccessWithBind_lits = [0, 0, 1, 2, 3, 8, 255] ∧
+    socks5.VirtualDNSIP = "10.0.0.1" ∧ socks5.DefaultDNSServer = "119.29.29.29" := by decide
+
+/-- **From the bytes on the wire to the tunnel, every byte string, every chunking, every creator
+behaviour.**  A rejected negotiation creates no tunnel or relay and the connection is closed after
+the prescribed reply.  An accepted CONNECT reaches the tunnel creator exactly once, with the RFC's
+host text and port, this listener's mapping id, target client and secret, and with every byte that
+followed the request still unread on the connection (payload intact); the application is then told
+success (`REP = 0`) or, if the creator failed, a failure reply and the connection is closed.  (The
+listener's own policy refuses `10.0.0.1:853` with a failure reply.)  An accepted UDP ASSOCIATE
+creates the relay once and announces its port and IPv4 address; without a relay creator the reply is
+"command not supported". -/
+theorem C20_connection (c : IPText) (cfg : ConnCfg) (chunks : List Bytes) (tail : Tail) :
+    holdsConn c cfg chunks.flatten (handleConnection c cfg ⟨chunks, tail⟩) = true :=
+  conn_holds c cfg chunks tail
+
+def sampleCfg : ConnCfg := ⟨[109], 42, [115], true, true, true, true, [127, 0, 0, 1], 4660⟩
+
+/-- Non-vacuity: CONNECT with two bytes of application data pipelined behind the request. -/
+example :
+    handleConnection toyIP sampleCfg ⟨[[5, 1, 0, 5], [1, 0, 1, 1, 2, 3, 4, 0, 80, 71], [69]], .eof⟩ =
+      ⟨[.tunnel [109] 42 [1, 2, 3, 4] 80 [115] [71, 69]], [5, 0, 5, 0, 0, 1, 0, 0, 0, 0, 0, 0], false⟩ := by decide
+
+example :
+    handleConnection toyIP sampleCfg ⟨[[5, 1, 0, 5, 3, 0, 1, 0, 0, 0, 0, 0, 0]], .eof⟩ =
+      ⟨[.relay [109] 42 [115]], [5, 0, 5, 0, 0, 1, 127, 0, 0, 1, 18, 52], false⟩ := by decide
+
+/-- `holdsConn` rejects a tunnel opened to the right host but with a byte of the payload missing. -/
+example :
+    holdsConn toyIP sampleCfg [5, 1, 0, 5, 1, 0, 1, 1, 2, 3, 4, 0, 80, 71, 69]
+      ⟨[.tunnel [109] 42 [1, 2, 3, 4] 80 [115] [69]], [5, 0, 5, 0, 0, 1, 0, 0, 0, 0, 0, 0], false⟩ = false := by
+  decide
+
 /-! ### Datagrams in flight: `UDPRelay.readLoop` and its `handlePacket` goroutines -/
 
 /-- `readLoop` detaches the datagram from its read buffer (`make` + `copy`) *before* the `go`
@@ -345,5 +409,45 @@ example :
     ((Relay.init [[0, 0, 0, 1, 10, 1, 2, 3, 0, 80, 1, 1], [0, 0, 1, 1], [0, 0, 0, 3, 1, 97, 0, 53, 7]]).exec toyIP
       .copyAtRead [.read, .read, .read, .run 2, .run 0, .run 0]) =
     ⟨[0, 0, 0, 3, 1, 97, 0, 53, 7, 80, 1, 1], [], [], [⟨[97], 53, [7]⟩, ⟨[10, 1, 2, 3], 80, [1, 1]⟩]⟩ := by decide
+
+/-- The two ways back wrap the answer with `buildUDPHeader` and send it to the application. -/
+theorem C20_skel_relay_back :
+    Skel.UDPRelay_handleDNSQuery = ["dnsHandler.QueryDNS", "r.buildUDPHeader", "udpConn.WriteToUDP"] ∧
+    Skel.udpSession_receiveLoop = ["tunnel.ReceivePacket", "relay.buildUDPHeader", "udpConn.WriteToUDP"] := by
+  decide
+
+/-- **Both directions, every burst, every schedule, with or without a DNS handler.**  Tunnels get
+exactly the non-DNS payloads for their destinations; the DNS handler gets exactly the port-53
+payloads with server `host:53` (the virtual DNS address replaced by the default server); and for
+whatever the tunnels / the handler answer (`answer`), the application receives one RFC datagram per
+answer that parses to the destination the answer belongs to, the same port and the answer intact
+(re-encoding a parsed header and parsing it again, on the real return path). -/
+theorem C20_relay_both_directions (c : IPText) (hrt : c.RT) (dns : Bool) (answer : Bool → Bytes → Bytes)
+    (ds : List Bytes) (sch : List RStep)
+    (hq : ((Relay.init ds).exec c .copyAtRead sch).quiescent = true) :
+    holdsRelayIO c dns answer ds
+      (relayIO c dns answer ((Relay.init ds).exec c .copyAtRead sch).sent) = true :=
+  relayIO_holds c hrt dns answer ds sch hq
+
+/-- Non-vacuity: one tunnel datagram and one DNS datagram to the virtual DNS address. -/
+example :
+    relayIO toyIP true (fun isDns p => (if isDns then 213 else 165) :: p)
+      ((Relay.init [[0, 0, 0, 1, 9, 9, 9, 9, 0, 80, 7], [0, 0, 0, 3, 8, 49, 48, 46, 48, 46, 48, 46, 49, 0, 53, 1, 2]]).exec
+        toyIP .copyAtRead [.read, .read, .run 1, .run 0]).sent =
+    ⟨[⟨[9, 9, 9, 9], 80, [7]⟩],
+     [([49, 49, 57, 46, 50, 57, 46, 50, 57, 46, 50, 57, 58, 53, 51], [1, 2])],
+     [[0, 0, 0, 3, 8, 49, 48, 46, 48, 46, 48, 46, 49, 0, 53, 213, 1, 2], [0, 0, 0, 1, 9, 9, 9, 9, 0, 80, 165, 7]]⟩ := by
+  decide +kernel
+
+/-- **The adapter's real per-connection function** (`handleSocksConnection`, no session attached),
+every byte string, chunking and configuration: always closes; consumes an accepted negotiation
+exactly and answers it with a failure reply after the replies owed; rejects as `C20_adapter` says. -/
+theorem C20_adapter_connection (c : IPText) (cfg : AdCfg) (chunks : List Bytes) (tail : Tail) :
+    holdsAdConn cfg chunks.flatten (adConnection c cfg ⟨chunks, tail⟩).1
+      (chunks.flatten.length - (adConnection c cfg ⟨chunks, tail⟩).2.flat.length) true = true :=
+  adConn_holds c cfg chunks tail
+
+example : adConnection toyIP ⟨false, [], []⟩ ⟨[[5, 1, 0, 5, 1, 0, 1], [1, 2, 3, 4, 0, 80, 9]], .eof⟩ =
+    ([5, 0, 5, 1, 0, 1, 0, 0, 0, 0, 0, 0], ⟨[[9]], .eof⟩) := by decide
 
 end Tunnox.C20
